@@ -662,6 +662,12 @@ class NF:
             fname = f"{base.canon()}.{f.attr}"
             fdeps, fg = base.deps, base.gdeps
         else:
+            if isinstance(f, ast.Name) and f.id == "self" and sc.self_class and self.inline_calls and depth < self.inline_depth:
+                m = self.repo.method(sc.self_class, "__call__")
+                if m is not None:
+                    r = self._inline(m[1], f"{m[0]}.__call__", e, sc, at, depth, skip_self=True)
+                    if r is not None:
+                        return r
             fp = self.poly(f, sc, at, depth)
             fname, fdeps, fg = fp.canon(), fp.deps, fp.gdeps
         return self._mkcall(fname, args, kws, fdeps, fg)
